@@ -10,13 +10,15 @@
 //!          fseq  "[" per level, closed               (flow sequences)
 //!          fmap  "{a: " per level, closed            (flow mappings)
 //!          mix   block "- " levels around a flow core of (at most) 100 "[" levels
-//!          qflow "[ ? ] , " per level, then d closing "]"   (flow-limit bypass 1: the parser's
-//!                flow_sequence_entry_mapping_key consumes the "]" of "[ ? ]" as the end of the empty key, so the
-//!                parser stays inside the sequence while the scanner's flow_level is back to 0: d nested
-//!                sequences at scanner flow level 1; the text is accepted)
-//!          colons "[" + " :" per level + "]"                (flow-limit bypass 2: fetch_value pushes a synthetic
+//!          qflow "[ ? ] , " per level, then d closing "]"   (REGRESSION scenario: before c5ad60c the parser's
+//!                flow_sequence_entry_mapping_key consumed the "]" of "[ ? ]" as the end of the empty key, so the
+//!                text was accepted as d nested sequences at scanner flow level 1; now the first "[ ? ]" is a
+//!                complete document and the "," / "]" behind it is an error value at every depth)
+//!          colons "[" + " :" per level + "]"                (flow-limit bypass: fetch_value pushes a synthetic
 //!                FlowMappingStart for every bare ':' inside a flow sequence: d nested mappings at scanner flow
 //!                level 1; the parse ends in an error, but only at the closing "]")
+//!          colonsok "[" + " :" per level + " " + "}" per level + "]"   (the same bypass, ACCEPTED: the d real '}'
+//!                close the d synthetic mappings; the first of them lowers the scanner's flow level to 0)
 //!   api    iter   Parser::new_from_str(..) drained as an iterator                (pull interface)
 //!          load   Parser::load into a receiver that only counts                  (push interface)
 //!          drop   Yaml::load_from_str, then drop the documents
@@ -118,6 +120,18 @@ fn build(shape: &str, d: usize) -> Option<String> {
             s.push('[');
             for _ in 0..d {
                 s.push_str(" :");
+            }
+            s.push(']');
+        }
+        "colonsok" => {
+            s.reserve(3 * d + 3);
+            s.push('[');
+            for _ in 0..d {
+                s.push_str(" :");
+            }
+            s.push(' ');
+            for _ in 0..d {
+                s.push('}');
             }
             s.push(']');
         }
@@ -264,7 +278,7 @@ fn scenario(api: &str, src: &str) -> String {
 fn main() {
     let a: Vec<String> = std::env::args().collect();
     if a.len() != 4 {
-        println!("USAGE hx_c11 <seq|map|qkey|alt|fseq|fmap|mix|qflow|colons> <depth> <iter|load|drop|emit|pdrop|pemit>");
+        println!("USAGE hx_c11 <seq|map|qkey|alt|fseq|fmap|mix|qflow|colons|colonsok> <depth> <iter|load|drop|emit|pdrop|pemit>");
         std::process::exit(2);
     }
     let depth: usize = match a[2].parse() {
